@@ -50,10 +50,18 @@ pub fn be_parameter_value(input: &[u8], id: ParameterId) -> nom::IResult<&[u8], 
         ParameterValueType::ResetToken => {
             map(be_reset_token, ParameterValue::ResetToken).parse(input)
         }
-        ParameterValueType::ConnectionId => Ok((
-            &[],
-            ParameterValue::ConnectionId(ConnectionId::from_slice(input)),
-        )),
+        ParameterValueType::ConnectionId => {
+            if input.len() > crate::cid::MAX_CID_SIZE {
+                return Err(nom::Err::Error(nom::error::make_error(
+                    input,
+                    nom::error::ErrorKind::TooLarge,
+                )));
+            }
+            Ok((
+                &[],
+                ParameterValue::ConnectionId(ConnectionId::from_slice(input)),
+            ))
+        }
         ParameterValueType::PreferredAddress => {
             map(be_preferred_address, ParameterValue::PreferredAddress).parse(input)
         }
@@ -145,11 +153,24 @@ impl<Role, T: bytes::BufMut> WriteParameters<Role> for T {
 }
 
 fn handle_nom_error<F: Debug, E: Debug>(input: &[u8], nom_error: nom::Err<F, E>) -> Error {
-    assert!(
-        matches!(nom_error, nom::Err::Incomplete(..)),
-        "Only incomplete errors should occur, but {nom_error:?} happened for input: {input:?}"
-    );
-    Error::IncompleteParameterId(format!("incomplete parameter data for input: {input:?}"))
+    // The blob comes from the peer: truncated (`Incomplete`) as well as malformed (`Error`, e.g. a
+    // short reset token or an over-long connection id) data is a TRANSPORT_PARAMETER_ERROR.
+    Error::IncompleteParameterId(format!(
+        "incomplete or malformed parameter data ({nom_error:?}) for input: {input:?}"
+    ))
+}
+
+/// Decode the value of one parameter, which must occupy exactly the bytes the peer declared.
+fn be_exact_parameter_value(value: &[u8], id: ParameterId) -> Result<ParameterValue, Error> {
+    let (remain, param_value) =
+        be_parameter_value(value, id).map_err(|nom_error| handle_nom_error(value, nom_error))?;
+    if !remain.is_empty() {
+        return Err(Error::IncompleteValue(
+            id,
+            format!("{} surplus bytes after the value", remain.len()),
+        ));
+    }
+    Ok(param_value)
 }
 
 impl<R: IntoRole + RequiredParameters + Default> Parameters<R> {
@@ -170,9 +191,7 @@ impl<R: IntoRole + RequiredParameters + Default> Parameters<R> {
             };
 
             ParameterId::belong_to(param_id, R::into_role())?;
-            let (remain, param_value) = be_parameter_value(param_value, param_id)
-                .map_err(|nom_error| handle_nom_error(param_value, nom_error))?;
-            assert!(remain.is_empty(), "Parameter value should consume all data");
+            let param_value = be_exact_parameter_value(param_value, param_id)?;
 
             parameters.set(param_id, param_value)?;
         }
@@ -203,9 +222,7 @@ impl ServerParameters {
             };
 
             ParameterId::belong_to(param_id, Role::Server)?;
-            let (remain, param_value) = be_parameter_value(param_value, param_id)
-                .map_err(|nom_error| handle_nom_error(param_value, nom_error))?;
-            assert!(remain.is_empty(), "Parameter value should consume all data");
+            let param_value = be_exact_parameter_value(param_value, param_id)?;
 
             parameters.set(param_id, param_value)?;
         }
